@@ -188,7 +188,7 @@ where
         vc: &Arc<dyn StateValidityChecker<S>>,
     ) -> bool {
         #[cfg(feature = "verif")]
-        crate::verif::note_motion_check();
+        let _verif_scope = crate::verif::MotionCheckScope::enter();
         let space = &pd.space;
         let dist = space.distance(from, to);
         let num_steps = (dist / (space.get_longest_valid_segment_length() * 0.1)).ceil() as usize;
